@@ -13,6 +13,9 @@ import (
 // courtesy between concurrently running checks/self-tests: the lock files are
 // created on demand and nothing depends on them existing.
 func acquireSlot() {
+	if os.Getenv("PKVERIFY_NOSLOT") != "" {
+		return
+	}
 	n, _ := strconv.Atoi(os.Getenv("PKVERIFY_SLOTS"))
 	if n <= 0 || n > 6 {
 		n = 6 // default and cap: each process holds 3-4 GB and loads with ~4 threads
